@@ -87,7 +87,7 @@ class TlcResult:
 _RE_STATES = re.compile(r"(\d+) states generated, (\d+) distinct states found")
 _RE_DEPTH = re.compile(r"depth of the complete state graph search is (\d+)")
 _RE_INV = re.compile(r"Invariant (\S+) is violated")
-_RE_PROP = re.compile(r"(?:Temporal properties were violated|Action property (\S+) is violated|property (\S+) is violated)")
+_RE_PROP = re.compile(r"(?:Temporal properties were violated|Action property (\S+) is violated|property (\S+) is violated|Temporal property (\S+) was violated)")
 
 
 def run_tlc(scr, module, cfg, workers=None, extra=(), timeout=600, java_opts=None, copy_from=SPEC,
@@ -144,7 +144,7 @@ def run_tlc(scr, module, cfg, workers=None, extra=(), timeout=600, java_opts=Non
             r.violation = "deadlock"
         elif _RE_PROP.search(r.out):
             m = _RE_PROP.search(r.out)
-            r.violation = m.group(1) or m.group(2) or "temporal"
+            r.violation = m.group(1) or m.group(2) or m.group(3) or "temporal"
         elif "The postcondition" in r.out or "Postcondition" in r.out:
             r.violation = "postcondition"
         elif "is violated" in r.out:
